@@ -1,15 +1,116 @@
 (* C17, skip-list half: statements only. *)
-From VF Require Import Common.Base C03.Spec C03.Model C03.ProofsSpec C03.ProofsWalk C03.ProofsSL C03.ProofsSL2
-  C03.ProofsSL3 C03.ProofsZ C03.ProofsZ2 C03.ProofsZ3 C03.Proofs C03.ProofsAlg C03.ProofsExtra C03.Spans C03.Lanes C03.Props.
-From Coq Require Import Sorting.Sorted.
-Local Open Scope Z_scope.
+From VF Require Import Common.Base C17.SkipCost C17.SkipInst C17.ProofsSkip C17.ProofsSkipZ C17.ProofsSkipM.
+From VF Require C03.Spec C03.Model C03.Lanes C03.Props C04.Spec C04.Model C04.Proofs.
+Local Open Scope nat_scope.
 
-(* skip lists (zset): after every operation list and every height oracle the express lanes are intact: every node
-   of height > i is on the level-i chain from the header and highestLevel is exact — the structural precondition of
-   logarithmic expected search cost (D7 broke exactly this). The expected O(log n) itself is the textbook
-   argument over independent geometric heights and is NOT proved; the check judges batch averages. *)
+(* The search loops of the three skip lists, transcribed with their comparator calls (SkipCost: lscan = one level,
+   full_cost = zset Insert/Delete/UpdateScore, rank_cost = zset Rank, find_cost = skipmap findNode/Load and skipset
+   findNodeAdd/ContainsB, finddel_cost = findNodeDelete/findNodeRemove), on ANY node sequence with ANY heights,
+   loop condition [adv] and per-evaluation call counts [cadv], [ceq] of at most one:
+   (a) worst case  cost <= levels + length  (2*levels with the equal test);
+   (b) lane bound: if no node is taller than the number of levels searched, the walk on lane i passes only nodes of
+       height exactly i+1, all inside one gap of lane i+1, hence
+       cost <= sum_{i < levels} (1 + maxrun i)  =  runs_bound levels,
+       maxrun i = the longest run of height-(i+1) nodes between consecutive taller nodes. (For independent
+       geometric(1/4) heights a run has expected length < 4/3 and levels ~ log4 n: the textbook O(log n); that
+       probabilistic step is NOT formalised.) *)
+Theorem C17_skip_search_cost : forall (N : Type) (height : N -> nat) (adv : N -> bool) (cadv : N -> nat)
+    (xeq eq : N -> bool) (ceq : N -> nat),
+  (forall y, cadv y <= 1) -> (forall y, ceq y <= 1) -> forall levels x l found,
+  (full_cost N height adv cadv levels x l <= levels + length l /\
+   rank_cost N height adv cadv xeq levels x l <= levels + length l /\
+   find_cost N height adv cadv eq ceq levels x l <= 2 * levels + length l /\
+   finddel_cost N height adv cadv eq ceq levels x l found <= 2 * levels + length l) /\
+  (Forall (fun y => height y <= levels) l ->
+   full_cost N height adv cadv levels x l <= runs_bound N height levels l /\
+   rank_cost N height adv cadv xeq levels x l <= runs_bound N height levels l /\
+   find_cost N height adv cadv eq ceq levels x l <= levels + runs_bound N height levels l /\
+   finddel_cost N height adv cadv eq ceq levels x l found <= levels + runs_bound N height levels l).
+Proof.
+  exact (fun N height adv cadv xeq eq ceq Hc He levels x l found =>
+    conj (conj (full_cost_len N height adv cadv Hc levels x l)
+         (conj (rank_cost_len N height adv cadv Hc xeq levels x l)
+         (conj (find_cost_len N height adv cadv Hc eq ceq He levels x l)
+               (finddel_cost_len N height adv cadv Hc eq ceq He levels x l found))))
+         (fun Hh => let HQ := Q_none N height adv levels l Hh in
+            conj (full_cost_runs N height adv cadv Hc levels x l HQ)
+            (conj (rank_cost_runs N height adv cadv Hc xeq levels x l HQ)
+            (conj (find_cost_runs N height adv cadv Hc eq ceq He levels x l HQ)
+                  (finddel_cost_runs N height adv cadv Hc eq ceq He levels x l found HQ))))).
+Qed.
+
+(* ---- zset (C03 model) ---- *)
+Section ZSet.
+Import C03.Spec C03.Model C03.Lanes.
+
+(* after every operation list and every height oracle the express lanes are intact: every node of height > i is on
+   the level-i chain from the header and highestLevel is exact (D7 broke exactly this) *)
 Theorem C17_zset_lanes : forall ops, heights_pos ops -> Lanes (z_list (fst (run zset_step zset_empty ops))).
-Proof. exact C03_lanes. Qed.
+Proof. exact C03.Props.C03_lanes. Qed.
 
+(* the cost function follows the very search the C03 model of Insert / Delete / UpdateScore performs *)
+Theorem C17_zset_search_model : forall s m l,
+  ZS.search_end s m l = w_suf (search (fun _ y => less_than y s m) l).
+Proof. exact zs_search_end_model. Qed.
 
+(* in every reachable state, for every (score, member): the comparator calls of the Insert/Delete search and of Rank
+   obey the worst-case and the lane bound, and there are at most 32 levels *)
+Theorem C17_zset_cost_after_any_history : forall ops, heights_pos ops -> forall s m,
+  let l := z_list (fst (run zset_step zset_empty ops)) in
+  ZS.search_cost s m l <= sl_highest l + length (sl_nodes l) /\
+  ZS.search_cost s m l <= ZS.lane_bound l /\
+  ZS.rank_cost s m l <= sl_highest l + length (sl_nodes l) /\
+  ZS.rank_cost s m l <= ZS.lane_bound l /\
+  sl_highest l <= 32.
+Proof. exact zs_cost_reachable. Qed.
+
+Example C17_zset_nonvacuous :
+  let l := z_list (fst (run zset_step zset_empty
+    [OAddB 0 10 [1]; OAddB 0 20 [3]; OAddB 0 30 [1]; OAddB 0 40 [2]; OAddB 0 50 [1]; OAddB 0 60 [1]; OAddB 0 25 [2]])) in
+  map n_height (sl_nodes l) = [1; 3; 2; 1; 2; 1; 1] /\ sl_highest l = 3 /\
+  ZS.search_cost 0 55 l = 5 /\ ZS.rank_cost 0 50 l = 5 /\ ZS.lane_bound l = 8 /\ map n_member (ZS.search_end 0 55 l) = [60%Z].
+Proof. vm_compute. repeat split. Qed.
+End ZSet.
+
+(* ---- skipmap / skipset (C04 sequential model) ---- *)
+Section SkipMapSet.
+Import C04.Spec C04.Model C04.Proofs.
+
+(* lanes: in every state reachable through the API every node's height lies between 1 and highestLevel (in the C04
+   model a node of height h is on lanes 0..h-1 by construction; the check compares that with the dump's lane
+   counts); and for every key the comparator calls of Load/ContainsB (find_cost), Delete/RemoveB (del_cost) and
+   Store/AddB with any drawn level h (store_cost: the level is drawn, and raises highestLevel, BEFORE the search)
+   obey the worst-case and the lane bound *)
+Theorem C17_skipmap_cost_after_any_history : forall ops, mheights_pos ops ->
+  let s := fst (run skipmap_step sm0 ops) in
+  hts_ok (hl s) (nodes s) /\
+  forall k,
+    SM.find_cost k s <= 2 * hl s + length (nodes s) /\ SM.find_cost k s <= SM.lane_bound s /\
+    SM.del_cost k s <= 2 * hl s + length (nodes s) /\ SM.del_cost k s <= SM.lane_bound s /\
+    forall h, SM.store_cost k h s <= 2 * Nat.max (hl s) h + length (nodes s) /\
+              SM.store_cost k h s <= SM.lane_bound (randomlevel h s).
+Proof. exact skipmap_reachable. Qed.
+
+Theorem C17_skipset_cost_after_any_history : forall ops, sheights_pos ops ->
+  let s := fst (run skipset_step sm0 ops) in
+  hts_ok (hl s) (nodes s) /\
+  forall k,
+    SM.find_cost k s <= 2 * hl s + length (nodes s) /\ SM.find_cost k s <= SM.lane_bound s /\
+    SM.del_cost k s <= 2 * hl s + length (nodes s) /\ SM.del_cost k s <= SM.lane_bound s /\
+    forall h, SM.store_cost k h s <= 2 * Nat.max (hl s) h + length (nodes s) /\
+              SM.store_cost k h s <= SM.lane_bound (randomlevel h s).
+Proof. exact skipset_reachable. Qed.
+
+Example C17_skipmap_nonvacuous :
+  let s := fst (run skipmap_step sm0 [Store 10 1 1; Store 20 1 4; Store 30 1 1; Store 40 1 2; Store 50 1 1; Delete 30]) in
+  map nh (nodes s) = [1; 4; 2; 1] /\ hl s = 4 /\
+  SM.find_cost 50 s = 4 /\ SM.del_cost 40 s = 4 /\ SM.store_cost 45 6 s = 4 /\ SM.lane_bound s = 11.
+Proof. vm_compute. repeat split. Qed.
+End SkipMapSet.
+
+Print Assumptions C17_skip_search_cost.
 Print Assumptions C17_zset_lanes.
+Print Assumptions C17_zset_search_model.
+Print Assumptions C17_zset_cost_after_any_history.
+Print Assumptions C17_skipmap_cost_after_any_history.
+Print Assumptions C17_skipset_cost_after_any_history.
